@@ -77,6 +77,35 @@ def field_checks(d, fin, src, failing, strict):
                     break
 
 
+def _ss_worker(args):
+    """every clause of the property on one small-scope program (both modes, default syntax mode)"""
+    label, src, _ = args
+    failing, outcome, res = [], {}, {}
+    for fin in (False, True):
+        r = e2e.run_real(src, fin, False)
+        if r["exc"]:
+            failing.append({"what": f"raise: {r['exc']}", "sig": ["C15", "raise", r["exc"][0], r["exc"][1]],
+                            "input": {"src": src, "opts": {"fin": fin, "strict": False}}})
+            continue
+        d = r["funcs"].get("f")
+        if d is None:
+            continue
+        res[fin] = d
+        field_checks(d, fin, src, failing, False)
+        outcome["infinite" if d["infinite"] else "finite"] = outcome.get("infinite" if d["infinite"] else "finite", 0) + 1
+    if len(res) == 2 and not res[False]["infinite"]:
+        a, b = e2e.strip(res[False]), e2e.strip(res[True])
+        for k in ("infinite", "index", "variables", "relation", "valid_boxes", "first", "bound", "inf_flows"):
+            if a.get(k) != b.get(k):
+                failing.append({"what": f"modes-differ: field {k} differs between early-stop and run-to-completion on a non-infinite function",
+                                "sig": ["C15", "modes-differ", k], "input": {"src": src, "opts": {"strict": False}}, "expected": a.get(k), "observed": b.get(k)})
+                break
+    for f in failing:
+        f.setdefault("what", "")
+        f["what"] = "[small scope] " + f["what"]
+    return failing, outcome
+
+
 def run(ctx):
     vlib.import_pymwp()
     n = ctx.n(140, 1500)
@@ -110,15 +139,17 @@ def run(ctx):
                         break
                 else:
                     same_modes += 1
+    ssf, ssinfo = streams.small_scope_map(ctx, _ss_worker, 800)
+    failing += ssf
     if ctx.coq_ok:
         mism += e2e.coq_compare("c15", coq_cases)
     else:
         mism.append("model not built: analysis correspondence not run")
     dist = streams.distribution(recs)
     distinct = len({repr(d["typed"]) for d in recs if streams.nontrivial(d)})
-    stats = {"evaluations": len(recs), "distinct_nontrivial": distinct,
+    stats = {"evaluations": len(recs) + 2 * ssinfo["programs"], "distinct_nontrivial": distinct,
              "rule": "generated functions x {fin} x {strict}; every clause of the property checked on each real result; non-trivial = distinct typed function with a site and a loop or branch",
-             "samples": [progs[-1][1]], "distribution": dist, "finite_mode_pairs_equal": same_modes, "coq_model_cases": len(coq_cases)}
+             "samples": [progs[-1][1]], "distribution": dist, "finite_mode_pairs_equal": same_modes, "coq_model_cases": len(coq_cases), "small_scope": ssinfo}
     return {"failing": failing, "corr_mismatch": mism, "stats": stats}
 
 
